@@ -96,6 +96,14 @@ def file_violations(rec, remove_penalised, write_out_order):
                     if g["ctg"] is not None and remove_penalised:
                         continue
                     expected.append(g)
+    # every group the API reports is written, whatever the order list of the parameter file says
+    ids = {id(g) for g in expected}
+    unwritten = [g for g in avr["groups"] if g["reported"] and id(g) not in ids
+                 and not (g["ctg"] is not None and remove_penalised)]
+    if unwritten:
+        return [{"clause": "reported-group-written", "key": unwritten[0]["key"],
+                 "detail": "%s (residue type %s) is reported by the API but its type is not written out" % (
+                     unwritten[0]["label"], unwritten[0]["rtype"])}], {}
     got = parsed["det_groups"]
     if [g["label"] for g in expected] != [d["label"] for d in got]:
         exp_l, got_l = [g["label"] for g in expected], [d["label"] for d in got]
@@ -298,3 +306,14 @@ def run_shard(ctx):
         ctx.account(case, v, info)
 
     ctx.loop_stage("corpus-files", mine, corpus_body)
+
+    if ctx.shard == 0:
+        import json
+        w = json.load(open(os.path.join(os.path.dirname(os.path.dirname(os.path.abspath(__file__))), "witnesses",
+                                        "F22_conformation_file_omits_chain.json")))["case"]
+
+        def wit(c):
+            v, info = check_case(c)
+            info["sample"] = {"structure": "witness of fixed finding F22 (chain known to a conformation only by topping-up)"}
+            ctx.account(c, v, info)
+        ctx.loop_stage("F22-regression", [w], wit)
